@@ -1283,6 +1283,18 @@ def relational_deep(W, fact, depth=0):
     interpreted through the helper's return term with its parameters bound (so `fn same(a,b)->bool {a == b}` is an equality)."""
     import flow
     out = []
+    # `opt.is_some_and(|v| pred(v))` taken: opt is Some and pred(payload) holds (the closure applied to the payload, captures bound)
+    if fact[0] in ("eq", "ne") and isinstance(fact[2], bool) and is_call(fact[1]) and callee_name(fact[1][1]) in ("is_some_and", "is_ok_and") and len(fact[1][2]) == 2 \
+            and (fact[2] if fact[0] == "eq" else not fact[2]) and depth < 3:
+        opt, clo = fact[1][2]
+        if isinstance(clo, tuple) and clo and clo[0] == "closure" and clo[1] in W.prog.fns:
+            site = fact[1][3] if len(fact[1]) > 3 else None
+            host = W.ev(site[0]) if site and site[0] in W.prog.fns else None
+            ret = host.apply_closure(clo, [host.payload_term(opt)]) if host is not None else None
+            if ret is not None:
+                inner = relational_deep(W, ("eq", ret, True), depth + 1)
+                if inner:
+                    return inner + [("Pred", "is_some", opt)]
     for r in flow.relational(fact):
         if r[0] in ("True", "False") and is_call(r[1]) and r[1][1] in W.prog.fns and depth < 3:
             callee = r[1][1]
